@@ -559,9 +559,13 @@ where
 	}
 	{
 		let mut w = v.clone();
+		let first_ok = v.first().map_or(false, |f| T::new(mk(), f).is_ok());
 		if T::new_apply(mk(), &mut w).is_ok() {
 			let err = if w.len() != v.len() { Some("new_apply changed the length".to_string()) } else { None };
 			res.push(Batch { api: "new_apply", out: outs(w), reference: 1, error: err });
+		} else if first_ok {
+			// new() accepts these parameters with the first element: new_apply must not fail (it is new + apply)
+			res.push(Batch { api: "new_apply", out: outs(v.clone()), reference: 1, error: Some("new_apply returned Err although new() accepts the same parameters and first element".to_string()) });
 		}
 		let mut e: Vec<V> = Vec::new();
 		let _ = T::new_apply(mk(), &mut e);
